@@ -13,5 +13,5 @@ os.unlink(out)
 missing = [t for t in b["stable_pass"] if t not in passed]
 print(f"passed={len(passed)} stable={len(b['stable_pass'])} missing={len(missing)}")
 for m in missing: print("  MISSING", m)
-subprocess.run("cd /repo && rm -f band.em && git status --short | head", shell=True)
+subprocess.run("cd /repo && git clean -fdq && git status --short | head", shell=True)
 sys.exit(1 if missing else 0)
